@@ -39,10 +39,11 @@ def run(ctx, R, tier):
                      "request (constructors of session/percall instances included) can call track_resource (shared with C12-R2)", floor=0)
     # ---------------------------------------------------------------- R7 (shared with C12-R2)
     from ..report import Rules as _Rules
+    from ..report import run_shared as _run_shared
     from . import c12 as _c12
     R12 = _Rules("C12")
     try:
-        _c12.run(ctx, R12, tier)
+        _run_shared(ctx, _c12, R12, tier)
     except AnalysisError as _shared_x:
         # the other property's own anchors are gone on this tree: its check reports that; what it produced before is still shared
         R.note("obligations shared from C12 are incomplete on this tree: %s" % _shared_x)
